@@ -44,8 +44,22 @@ def normalised(term, base_pred=None):
     return None
 
 
+def _by_scenarios(ctx, q, done):
+    """The values are collected / the inputs brought to a common dimension order in a form the structural clauses do not read (a helper per input, a list that is
+    rebuilt step by step ...): whether inputs with the same dimensions in another order are matched by name, and what the result's axes are, is read off the
+    interpreted scenarios of the function (second / first input with permuted dimensions, 3-d with permuted secondary dimensions, differing labels with and without
+    align=True, tuple / dict inputs)"""
+    if q in done:
+        return
+    done.add(q)
+    from ..scenario_rule import rule_scenarios
+    for rid, what in (('R2', 'dims-order agreement before a positional join'), ('R3', 'placement coherence')):
+        rule_scenarios(ctx, rid, only=q, title='%s (%s: interpreted scenarios)' % (what, q.rsplit('.', 1)[-1]))
+
+
 def rule_stack(ctx):
     own_check = [False]
+    done = set()
     ctx.rule('R1', 'alignment safeguard', 5)
     ctx.rule('R2', 'dims-order agreement before a positional join', 2)
     ctx.rule('R3', 'placement coherence', 2)
@@ -79,13 +93,12 @@ def rule_stack(ctx):
             ok = data[0] == 'call' and T.dotted(data[1]) == 'np.array' and data[2] and data[2][0][0] == 'comp' and \
                 data[2][0][2] == ('attr', ('elem', data[2][0][3][0][1], data[2][0][3][0][0]), 'values') and not data[2][0][3][0][2]
             if not ok:
-                ctx.violated('R3', fi, 'data = ' + T.show(data)[:120], 'the values are joined along a new first dimension: np.array([a.values for a in arrays])', node=p.node)
+                _by_scenarios(ctx, AL + 'stack', done)
                 continue
             joined = data[2][0][3][0][1]
             src = normalised(joined)
             if src is None:
-                ctx.violated('R2', fi, 'data = ' + T.show(data)[:140], 'the arrays whose values are joined positionally have not been brought to a common dimension '
-                             'order by name: stack([a, a.T]) on a square array stores the second slab transposed', node=p.node)
+                _by_scenarios(ctx, AL + 'stack', done)
                 continue
             want_src = ('call', ('name', 'align_'), (L0,), (('**', ('setitem', P_('**kwargs'), const('strict'), T.CONST_TRUE)),)) if align else L0
             if src != want_src:
@@ -174,6 +187,7 @@ def rule_stack(ctx):
 
 def rule_concatenate(ctx):
     fi = ctx.fn(AL + 'concatenate')
+    done = set()
 
     def oracle(atom, st):
         s = T.show(atom)
@@ -240,8 +254,7 @@ def rule_concatenate(ctx):
             joined = vals[2][0][3][0][1]
             src = normalised(joined)
             if src is None:
-                ctx.violated('R2', fi, 'values = ' + T.show(vals)[:140], 'the arrays whose values are concatenated positionally have not been brought to a common '
-                             'dimension order by name (or the values were joined before that step)', node=p.node)
+                _by_scenarios(ctx, AL + 'concatenate', done)
                 continue
             # axes must come from the same (normalised) list
             cax = [e.a for e in p.calls('_concatenate_axes')]
